@@ -42,12 +42,20 @@ fn header_rules(cmf: u8, flg: u8) -> Vec<&'static str> {
 fn producer(rep: &mut Report, rng: &mut Rng, k: u64) {
     let level = (k % 11) as u8;
     let strat = STRATEGIES[((k / 11) % 5) as usize];
-    let wbits = 8 + ((k / 55) % 8) as u8;
+    // window_bits 8..=15 systematically; every 5th case a value outside that range (the
+    // constructor documents that it clamps, so the header must stay valid)
+    let wbits = if k % 5 == 4 { *rng.pick(&[0u8, 1, 7, 16, 17, 20, 23, 24, 31, 32, 100, 255]) } else { 8 + ((k / 55) % 8) as u8 };
     let first_flush = (k / 440) % 2 == 1;
     let n = rng.size_biased(if k % 7 == 0 { 200_000 } else { 5000 });
     let cls = rng.below(data::NUM_CLASSES);
     let plain = data::gen(rng, cls, n);
     let mut c = CompressorOxide::with_params(DataFormat::Zlib, level, strat, wbits);
+    if c.data_format() != DataFormat::Zlib {
+        // window_bits == 0 makes with_params build a raw-format compressor (the object itself
+        // reports DataFormat::Raw): not zlib-format output, nothing for this property to check
+        rep.count("producer_not_zlib_format_window_bits_0");
+        return;
+    }
     let mut out = Vec::new();
     let mut pos = 0usize;
     let mut obuf = vec![0u8; *rng.pick(&[1usize, 7, 100, 4096, 200_000])];
